@@ -119,7 +119,7 @@ CLAIMED = {
              "the integral grows over each fine segment by the trapezoid and is 0 at startInd; monotone for a field of one sign; interpolation returns node values at nodes and reproduces affine data; "
              "for a UNIFORM pitch zShift is EXACTLY handed-over value + pitch * poloidal distance for every discretisation of the fine contour and every position of the contour's points; for ANY integrands "
              "and any number of regions each later region starts from the last y-face value of the region before it. The PrimFloat instance is run bit for bit against the real calcZShift on stub regions "
-             "(whole pipeline incl. calcDistance / getDistance; 120 / 1500 chains per run, refusals included).",
+             "(whole pipeline incl. calcDistance / getDistance; 120 / 1500 chains per run, refusals included). ShiftTorsion = DDX(dphidy): MeshRegion.DDX / DDY are modelled (theories/Model_Stencil.v: cell values, interior / boundary / shared faces), exact on affine data for regions of any size, single valued at faces shared by two regions, run bit for bit against the real methods on stub regions with and without neighbours. zShift is monotone along the contour for a field of one sign.",
         note="Trusted: Coq kernel (+ Reals axioms for the dphidy identity and the quadrature theorems); the stub region of the correspondence (real MeshRegion.calcZShift, PsiContour.get_distance, FineContour methods; stub equilibrium functions); quadrature accuracy monitored (35% threshold away from X-point cells: "
              "catches wrong integrands/factors, not small errors); ShiftAngle = 2*pi*q for the circular case is not proved.",
         technique="Coq proof on translated formula + hand chain and quadrature models + bit-exact PrimFloat correspondence + grid oracle", design="6/C06"),
